@@ -4,6 +4,11 @@ import json, os
 HERE = os.path.dirname(os.path.dirname(os.path.abspath(__file__)))
 ALL = ["C%02d" % i for i in range(1, 21)]
 CHECKS = {
+ "C19": dict(
+   technique="TLA+ spec Config.tla: what the command line and the file say for up to two options and the kind of file (none, ok, five malformed kinds) form the initial state; Initialize computes the effective values by the reference rule; every state is bound to concrete option triples and a real server's attributes, messages and initialize answer are compared with the spec state",
+   text="24 documented options (flags, integers, strings, path sets, suffix sets, pp_defs JSON) x {absent, CLI, file, both with different values} x pairs x 7 file kinds; untouched options must stay at their defaults.",
+   note="Trusted: TLC, option table (values per option type), attribute normalisation. Flags cannot be set to false on the command line; those combinations are skipped. Wrong value types are a recorded known finding.",
+   design="4/C19"),
  "C18": dict(
    technique="TLA+ spec Discovery.tla: every (directory tree, settings) pair is an initial state; the spec computes ExpectedIndexed from the property statement and TLC checks the staged computation (resolve globs, choose source dirs, list files) equals it; sampled pairs are built as real trees and a real server's workspace/symbol answer is compared with the spec state",
    text="625 trees (4 directories x 5 suffix profiles incl. mixed-case and look-alike suffixes) x 192 settings (source_dirs unset/literal/recursive glob/name glob, excl_paths none/dir/dir/**/file, incl_suffixes, excl_suffixes, CLI or file): 1.5k sampled pairs in quick, 24k in thorough.",
